@@ -35,21 +35,24 @@ inductive TExpr where
   | add (k : Nat) (n : Int)
   deriving Repr, DecidableEq, Inhabited
 
-/-- `Lazy_` (lazy.rs:65). `blackhole owner waiters`: `waiters` = the `Option<oneshot>` is `Some`. -/
-inductive LState where
-  | thunk
-  | blackhole (owner : Nat) (waiters : Bool)
-  | value (v : Int)
-  deriving Repr, DecidableEq, Inhabited
-
 /-- Error class of a failed force: the message contains `<<loop>>` or the thunk's own `boom`. -/
 inductive FErr where
   | loop
   | boom
   deriving Repr, DecidableEq, Inhabited
 
-/-- Result of a force. `pending`: the future waits on a oneshot of another thread (lazy.rs:158-180).
-    `nofuel` is an artefact of the explicit fuel and never occurs with fuel > number of lazies. -/
+/-- `Lazy_` (lazy.rs:65-75). `blackhole owner waiters`: `waiters` = the `Option<oneshot>` is `Some`.
+    `failed e`: `Failed(String)`, the recorded error (only its class is modelled). -/
+inductive LState where
+  | thunk
+  | blackhole (owner : Nat) (waiters : Bool)
+  | value (v : Int)
+  | failed (e : FErr)
+  deriving Repr, DecidableEq, Inhabited
+
+/-- Result of a force. `pending`: the future waits on a oneshot of another thread (lazy.rs:166-191).
+    `nofuel` is an artefact of the explicit fuel and never occurs with fuel > number of lazies + 1
+    (`force_fuel_enough`). -/
 inductive FRes where
   | ok (v : Int)
   | err (e : FErr)
@@ -64,56 +67,24 @@ structure LS where
   st : Nat → LState
   runs : List Nat
 
-/-- The tail of the `Thunk` branch for a body `n + force L_j`: `p` is what the inner force gave. -/
+/-- The tail of the `Thunk` branch for a body `n + force L_j`: `p` is what the inner force gave.
+    Success stores `Value` (lazy.rs:134-150); failure goes through `fail` (lazy.rs:121-131, 153):
+    the cell becomes `Failed(err)`. -/
 def finishAdd (k : Nat) (n : Int) (p : LS × FRes) : LS × FRes :=
-  match p.2 with
-  | .ok v => ({ st := upd p.1.st k (.value (v + n)), runs := p.1.runs }, .ok (v + n))
-  | _ => p
-
-/-- lazy.rs:98 `force`, called by green thread `tid` on lazy `k`.
-    * `Thunk` (lazy.rs:107-148): the state becomes `Blackhole(tid, None)`, the thunk is called;
-      success stores `Value` (and fires the waiters); FAILURE RETURNS THE ERROR AND LEAVES THE BLACKHOLE
-      (lazy.rs:146) — this is defect D8;
-    * `Blackhole(owner, _)` with `owner = tid` ⇒ `<<loop>>` (lazy.rs:151-157);
-    * `Blackhole(other, w)` ⇒ install the oneshot if absent and wait (lazy.rs:158-180);
-    * `Value v` ⇒ `v` (lazy.rs:181-184). -/
-def force (d : Decls) : Nat → Nat → Nat → LS → LS × FRes
-  | 0, _, _, s => (s, .nofuel)
-  | fuel + 1, tid, k, s =>
-    match s.st k with
-    | .thunk =>
-      match d k with
-      | .val v => ({ st := upd (upd s.st k (.blackhole tid false)) k (.value v), runs := k :: s.runs }, .ok v)
-      | .boom => ({ st := upd s.st k (.blackhole tid false), runs := k :: s.runs }, .err .boom)
-      | .add j n =>
-        finishAdd k n (force d fuel tid j { st := upd s.st k (.blackhole tid false), runs := k :: s.runs })
-    | .blackhole o _ =>
-      if o = tid then (s, .err .loop)
-      else ({ st := upd s.st k (.blackhole o true), runs := s.runs }, .pending)
-    | .value v => (s, .ok v)
-
-/-! The repaired `force` (suggested fix for D8): a failure is recorded in the cell (and the waiters
-    are woken), so every later force from any thread reports the same error. The model needs one more
-    state for that. -/
-
-inductive LStateF where
-  | thunk
-  | blackhole (owner : Nat) (waiters : Bool)
-  | value (v : Int)
-  | failed (e : FErr)
-  deriving Repr, DecidableEq, Inhabited
-
-structure LSF where
-  st : Nat → LStateF
-  runs : List Nat
-
-def finishAddF (k : Nat) (n : Int) (p : LSF × FRes) : LSF × FRes :=
   match p.2 with
   | .ok v => ({ st := upd p.1.st k (.value (v + n)), runs := p.1.runs }, .ok (v + n))
   | .err e => ({ st := upd p.1.st k (.failed e), runs := p.1.runs }, .err e)
   | _ => p
 
-def forceFixed (d : Decls) : Nat → Nat → Nat → LSF → LSF × FRes
+/-- lazy.rs:102 `force`, called by green thread `tid` on lazy `k`.
+    * `Thunk` (lazy.rs:110-156): the state becomes `Blackhole(tid, None)`, the thunk is called;
+      success stores `Value` (and fires the waiters); failure stores `Failed(err)`, fires the waiters
+      and returns the error (closure `fail`, lazy.rs:121-131);
+    * `Blackhole(owner, _)` with `owner = tid` ⇒ `<<loop>>` (lazy.rs:159-165);
+    * `Blackhole(other, w)` ⇒ install the oneshot if absent and wait (lazy.rs:166-191);
+    * `Value v` ⇒ `v` (lazy.rs:192-195);
+    * `Failed(err)` ⇒ that error (lazy.rs:196-198). -/
+def force (d : Decls) : Nat → Nat → Nat → LS → LS × FRes
   | 0, _, _, s => (s, .nofuel)
   | fuel + 1, tid, k, s =>
     match s.st k with
@@ -122,12 +93,45 @@ def forceFixed (d : Decls) : Nat → Nat → Nat → LSF → LSF × FRes
       | .val v => ({ st := upd (upd s.st k (.blackhole tid false)) k (.value v), runs := k :: s.runs }, .ok v)
       | .boom => ({ st := upd (upd s.st k (.blackhole tid false)) k (.failed .boom), runs := k :: s.runs }, .err .boom)
       | .add j n =>
-        finishAddF k n (forceFixed d fuel tid j { st := upd s.st k (.blackhole tid false), runs := k :: s.runs })
+        finishAdd k n (force d fuel tid j { st := upd s.st k (.blackhole tid false), runs := k :: s.runs })
     | .blackhole o _ =>
       if o = tid then (s, .err .loop)
       else ({ st := upd s.st k (.blackhole o true), runs := s.runs }, .pending)
     | .value v => (s, .ok v)
     | .failed e => (s, .err e)
+
+/-! The OLD rule (before /repo commit b4f59e3, defect D8): a failing thunk returned the error and left
+    `Blackhole(owner)` in the cell. Kept for the regression theorems `…_old_rule_…`. -/
+
+inductive LStateOld where
+  | thunk
+  | blackhole (owner : Nat) (waiters : Bool)
+  | value (v : Int)
+  deriving Repr, DecidableEq, Inhabited
+
+structure LSOld where
+  st : Nat → LStateOld
+  runs : List Nat
+
+def finishAddOld (k : Nat) (n : Int) (p : LSOld × FRes) : LSOld × FRes :=
+  match p.2 with
+  | .ok v => ({ st := upd p.1.st k (.value (v + n)), runs := p.1.runs }, .ok (v + n))
+  | _ => p
+
+def forceOld (d : Decls) : Nat → Nat → Nat → LSOld → LSOld × FRes
+  | 0, _, _, s => (s, .nofuel)
+  | fuel + 1, tid, k, s =>
+    match s.st k with
+    | .thunk =>
+      match d k with
+      | .val v => ({ st := upd (upd s.st k (.blackhole tid false)) k (.value v), runs := k :: s.runs }, .ok v)
+      | .boom => ({ st := upd s.st k (.blackhole tid false), runs := k :: s.runs }, .err .boom)
+      | .add j n =>
+        finishAddOld k n (forceOld d fuel tid j { st := upd s.st k (.blackhole tid false), runs := k :: s.runs })
+    | .blackhole o _ =>
+      if o = tid then (s, .err .loop)
+      else ({ st := upd s.st k (.blackhole o true), runs := s.runs }, .pending)
+    | .value v => (s, .ok v)
 
 /-! ## The primitives as one state machine -/
 
@@ -194,9 +198,11 @@ inductive Op where
 /-- State of a spawned coroutine as far as `resume` can tell. -/
 inductive TSt where
   | ready (ops : List Op)   -- spawned or suspended at a `yield`, remaining operations
-  | blocked                 -- inside a `force` future that will never be fired
+  | blocked                 -- inside a `force` future that is never fired (unreachable since b4f59e3)
   | done                    -- body finished: one frame left (thread.rs:1266)
-  | failed (e : FErr)       -- body ended with an error; frames are left on its stack
+  | failed (e : FErr) (errFrame : Bool)
+      -- body ended with an error; frames are left on its stack. `errFrame`: the top frame is the
+      -- `std.prim.error` call of a thunk that ran in the fatal force (else: a `force` frame InPoll)
   deriving Repr, Inhabited
 
 /-- An observation: thread, kind, two arguments (the same numbers the harness' `ev` primitive logs). -/
@@ -217,8 +223,8 @@ inductive Out where
   | fin
   | yielded (rest : List Op)
   | blocked
-  | failed (e : FErr)
-  | panic                   -- host panic (stack.rs:457) when a failed thread is resumed again
+  | failed (e : FErr) (errFrame : Bool)
+  | panic                   -- host panic (stack.rs:457) when a thread that died in `error` is resumed again
   | nofuel
   deriving Repr, Inhabited
 
@@ -228,12 +234,16 @@ def FErr.code : FErr → Int
 
 def St.emit (s : St) (e : Ev) : St := { s with log := e :: s.log }
 
-/-- `RUN k` events (kind 10, logged by the thunk itself, which does not know its thread: tid 9) for the
-    thunk bodies started between two `LS` states, oldest first ⇒ pushed newest first. -/
-def runEvents (before after : List Nat) : List Ev :=
-  (after.take (after.length - before.length)).map (fun (k : Nat) => (⟨9, 10, (k : Int), 0⟩ : Ev))
+/-- The thunk bodies started between two `LS` states, newest first. -/
+def newRuns (before after : List Nat) : List Nat := after.take (after.length - before.length)
 
-def primEvents (tid : Nat) (op : POp) (r : PRes) : List Ev :=
+/-- `RUN k` events (kind 10, logged by the thunk itself, which does not know its thread: tid 9). -/
+def runEvents (before after : List Nat) : List Ev :=
+  (newRuns before after).map (fun (k : Nat) => (⟨9, 10, (k : Int), 0⟩ : Ev))
+
+/-- What a primitive call logs after it returned. `caught = false`: a force outside `catch`, whose
+    error kills the thread before anything is logged. -/
+def primEvents (tid : Nat) (caught : Bool) (op : POp) (r : PRes) : List Ev :=
   match op, r with
   | .send c v, _ => [⟨tid, 1, c, v⟩]
   | .recv c, .got v => [⟨tid, 3, c, v⟩]
@@ -242,53 +252,67 @@ def primEvents (tid : Nat) (op : POp) (r : PRes) : List Ev :=
   | .load c, _ => [⟨tid, 5, c, 0⟩]
   | .store c v, _ => [⟨tid, 6, c, v⟩]
   | .force k, .forced (.ok v) => [⟨tid, 8, k, v⟩]
-  | .force k, .forced (.err e) => [⟨tid, 9, k, e.code⟩]
+  | .force k, .forced (.err e) => if caught then [⟨tid, 9, k, e.code⟩] else []
   | .force _, _ => []
+
+/-- Events logged before the call: a force announces itself (kind 7). -/
+def beginEvents (tid : Nat) (op : POp) : List Ev :=
+  match op with
+  | .force k => [⟨tid, 7, k, 0⟩]
+  | _ => []
+
+/-- One primitive call by thread `tid` together with everything it logs. -/
+def doPrim (d : Decls) (tid : Nat) (caught : Bool) (op : POp) (s : St) : St × PRes :=
+  ({ s with p := (pstep d tid op s.p).1,
+            log := primEvents tid caught op (pstep d tid op s.p).2 ++
+                   runEvents s.p.lz.runs (pstep d tid op s.p).1.lz.runs ++ beginEvents tid op ++ s.log },
+   (pstep d tid op s.p).2)
+
+/-- Did the `error` primitive itself run in this force (a `boom` thunk body was started)? Then the dead
+    thread's top frame is that `std.prim.error` call. -/
+def errFrame (d : Decls) (before after : List Nat) : Bool :=
+  (newRuns before after).any (fun j => decide (d j = .boom))
+
+/-- What `resume t` by `tid` does with the way the child's run ended (channel.rs:180-193):
+    continue with an updated thread table and one more event, or stop the whole program. -/
+def afterChild (tid t : Nat) (s1 : St) : Out → Except (St × Out) St
+  | .fin => .ok ({ s1 with th := upd s1.th t .done }.emit ⟨tid, 11, t, 0⟩)
+  | .yielded r => .ok ({ s1 with th := upd s1.th t (.ready r) }.emit ⟨tid, 11, t, 0⟩)
+  | .blocked => .ok ({ s1 with th := upd s1.th t .blocked }.emit ⟨tid, 11, t, 0⟩)
+  | .failed e f => .ok ({ s1 with th := upd s1.th t (.failed e f) }.emit ⟨tid, 13, t, e.code⟩)
+  | .panic => .error (s1, .panic)
+  | .nofuel => .error (s1, .nofuel)
 
 /-- Run the operations of thread `tid` (0 = the main thread, which `yield` does not suspend). -/
 def runOps (d : Decls) : Nat → Nat → List Op → St → St × Out
   | 0, _, _, s => (s, .nofuel)
   | _ + 1, _, [], s => (s, .fin)
-  | fuel + 1, tid, op :: rest, s =>
-    match op with
-    | .prim p =>
-      let s0 := match p with
-        | .force k => s.emit ⟨tid, 7, k, 0⟩
-        | _ => s
-      let (p1, r) := pstep d tid p s0.p
-      let s1 : St := { s0 with p := p1, log := primEvents tid p r ++ runEvents s0.p.lz.runs p1.lz.runs ++ s0.log }
-      match r with
-      | .forced .pending => (s1, .blocked)
-      | .forced .nofuel => (s1, .nofuel)
-      | _ => runOps d fuel tid rest s1
-    | .forceU k =>
-      let s0 := s.emit ⟨tid, 7, k, 0⟩
-      let (p1, r) := pstep d tid (.force k) s0.p
-      let s1 : St := { s0 with p := p1, log := runEvents s0.p.lz.runs p1.lz.runs ++ s0.log }
-      match r with
-      | .forced (.ok v) => runOps d fuel tid rest (s1.emit ⟨tid, 8, k, v⟩)
-      | .forced (.err e) => (s1, .failed e)
-      | .forced .pending => (s1, .blocked)
-      | _ => (s1, .nofuel)
-    | .yield =>
-      -- the event is logged just before the call of `yield`
-      let s1 := s.emit ⟨tid, 14, 0, 0⟩
-      if tid = 0 then runOps d fuel tid rest s1      -- top level: woken and polled again at once
-      else (s1, .yielded rest)
-    | .resume t =>
-      match s.th t with
-      | .done => runOps d fuel tid rest (s.emit ⟨tid, 12, t, 0⟩)          -- Error::Dead ⇒ Err
-      | .failed .boom => (s, .panic)                                          -- stack.rs:457 assert_pop: re-runs the `error` frame
-      | .failed .loop => runOps d fuel tid rest (s.emit ⟨tid, 11, t, 0⟩)   -- top frame = `force` InPoll ⇒ execute returns ⇒ Ok ()
-      | .blocked => runOps d fuel tid rest (s.emit ⟨tid, 11, t, 0⟩)       -- Pending ⇒ Ok ()
-      | .ready ops =>
-        match runOps d fuel t ops s with
-        | (s1, .fin) => runOps d fuel tid rest ({ s1 with th := upd s1.th t .done }.emit ⟨tid, 11, t, 0⟩)
-        | (s1, .yielded r) =>
-          runOps d fuel tid rest ({ s1 with th := upd s1.th t (.ready r) }.emit ⟨tid, 11, t, 0⟩)
-        | (s1, .blocked) => runOps d fuel tid rest ({ s1 with th := upd s1.th t .blocked }.emit ⟨tid, 11, t, 0⟩)
-        | (s1, .failed e) => runOps d fuel tid rest ({ s1 with th := upd s1.th t (.failed e) }.emit ⟨tid, 13, t, e.code⟩)
-        | (s1, .panic) => (s1, .panic)
-        | (s1, .nofuel) => (s1, .nofuel)
+  | fuel + 1, tid, .prim p :: rest, s =>
+    match (doPrim d tid true p s).2 with
+    | .forced .pending => ((doPrim d tid true p s).1, .blocked)
+    | .forced .nofuel => ((doPrim d tid true p s).1, .nofuel)
+    | _ => runOps d fuel tid rest (doPrim d tid true p s).1
+  | fuel + 1, tid, .forceU k :: rest, s =>
+    match (doPrim d tid false (.force k) s).2 with
+    | .forced (.ok _) => runOps d fuel tid rest (doPrim d tid false (.force k) s).1
+    | .forced (.err e) =>
+      ((doPrim d tid false (.force k) s).1,
+       .failed e (errFrame d s.p.lz.runs (doPrim d tid false (.force k) s).1.p.lz.runs))
+    | .forced .pending => ((doPrim d tid false (.force k) s).1, .blocked)
+    | _ => ((doPrim d tid false (.force k) s).1, .nofuel)
+  | fuel + 1, tid, .yield :: rest, s =>
+    -- the event is logged just before the call of `yield`
+    if tid = 0 then runOps d fuel tid rest (s.emit ⟨tid, 14, 0, 0⟩)   -- top level: woken and polled again at once
+    else (s.emit ⟨tid, 14, 0, 0⟩, .yielded rest)
+  | fuel + 1, tid, .resume t :: rest, s =>
+    match s.th t with
+    | .done => runOps d fuel tid rest (s.emit ⟨tid, 12, t, 0⟩)          -- Error::Dead ⇒ Err
+    | .failed _ true => (s, .panic)                                        -- stack.rs:457 assert_pop: re-runs the `error` frame
+    | .failed _ false => runOps d fuel tid rest (s.emit ⟨tid, 11, t, 0⟩)  -- top frame = `force` InPoll ⇒ execute returns ⇒ Ok ()
+    | .blocked => runOps d fuel tid rest (s.emit ⟨tid, 11, t, 0⟩)        -- Pending ⇒ Ok ()
+    | .ready ops =>
+      match afterChild tid t (runOps d fuel t ops s).1 (runOps d fuel t ops s).2 with
+      | .ok s2 => runOps d fuel tid rest s2
+      | .error r => r
 
 end GluonModel.Chan
